@@ -4,7 +4,7 @@ usage: tools_seeded.py <dir-with-patches> [Cxx-n ...]   (applies each patch to /
 import json, os, subprocess, sys, time, glob
 root = sys.argv[1]
 only = sys.argv[2:]
-out_path = '/verif/.work/seeded_results.json'
+out_path = '/verif/seeded/RESULTS.json'   # committed: latest result per seeded change + history of earlier runs
 try:
     results = json.load(open(out_path))
 except Exception:
@@ -26,7 +26,7 @@ for d in sorted(glob.glob(os.path.join(root, 'C??-?'))):
         r3 = sh(f'git -C /repo apply --3way {patch}')
         if r3.returncode != 0 or 'conflict' in r3.stdout.lower():
             sh('git -C /repo checkout -- . ; git -C /repo reset -q')
-            results[name] = {'status': 'patch-does-not-apply', 'detail': (r.stdout + r3.stdout)[-400:]}
+            results[name] = {'history': results.get(name, {}).get('history', []), 'status': 'patch-does-not-apply', 'detail': (r.stdout + r3.stdout)[-400:]}
             print(name, 'patch does not apply'); continue
         sh('git -C /repo reset -q')
         how = '3way'
@@ -43,7 +43,10 @@ for d in sorted(glob.glob(os.path.join(root, 'C??-?'))):
                 rj = json.load(open(p)); classes.append(rj.get('class') or rj.get('kind'))
             except Exception:
                 pass
-    results[name] = {'status': 'detected' if c.returncode == 1 else ('internal' if c.returncode == 2 else 'MISSED'), 'rc': c.returncode, 'how': how,
+    hist = results.get(name, {}).get('history', [])
+    if name in results and results[name].get('status'):
+        hist = hist + [{'status': results[name]['status'], 'classes': results[name].get('classes', []), 'at': results[name].get('at')}]
+    results[name] = {'history': hist, 'at': time.strftime('%Y-%m-%dT%H:%M:%S'), 'status': 'detected' if c.returncode == 1 else ('internal' if c.returncode == 2 else 'MISSED'), 'rc': c.returncode, 'how': how,
                      'classes': sorted(set(x for x in classes if x)), 'lines': lines[:6], 'tail': c.stdout.strip().split('\n')[-1], 'wall_s': round(time.time() - t0)}
     print(name, results[name]['status'], results[name]['classes'], results[name]['tail'])
     sh('git -C /repo checkout -- . ; git -C /repo clean -fdq')
